@@ -45,6 +45,8 @@ def packId (H : Bytes → Bytes) (fmt : PackFmt) (filt : PackFilter) (es : List 
   | .err c => .err c
   | .panic w => .panic w
   | .ok b =>
+    -- the filters ejected every entry, the root included: refused (was an index-out-of-range panic before `fix:` 4e72b33)
+    if b.isEmpty then .err .filterRejection else
     match hashBucket H b with
     | .error p => .panic (panicMsg p)
     | .ok h => .ok h
